@@ -185,7 +185,7 @@ def run(ctx) -> None:
             if isinstance(call.func, ast.Name) and call.func.id.startswith("_") and call.func.id in evmod.functions and call.func.id not in exists_preds:
                 return (evmod.functions[call.func.id], st.selfcls, None)
             # ... and, inside watchdog.utils.patterns, that module's own private helpers (case folding, the any-match test)
-            if isinstance(call.func, ast.Name) and call.func.id.startswith("_") and st.module is not None and st.module.name == "watchdog.utils.patterns" and st.fn.split(".")[0] != "filter_paths" and call.func.id in st.module.functions and call.func.id != "_match_path":
+            if isinstance(call.func, ast.Name) and call.func.id.startswith("_") and st.module is not None and st.module.name == "watchdog.utils.patterns" and call.func.id in st.module.functions and call.func.id != "_match_path":
                 return (st.module.functions[call.func.id], st.selfcls, None)
             # ... and private methods of the handler itself (the decision moved into `self._should_dispatch(event)`)
             if isinstance(call.func, ast.Attribute) and isinstance(call.func.value, ast.Name) and call.func.value.id == "self" and call.func.attr.startswith("_") and not call.func.attr.startswith("__") and st.selfcls:
@@ -522,6 +522,16 @@ def run(ctx) -> None:
                     exc_name = a2.id if isinstance(a2, ast.Name) else None
         it = asg.get(inc_name, "") or "="
         et = asg.get(exc_name, "") or "="
+        # ... read through locals and helpers: the substituted terms of that call's arguments on this path
+        sub_args = (mcalls[0].extra.get("args") or []) if mcalls else []
+        if len(sub_args) >= 3:
+            vals: dict[str, str] = {}
+            for e_ in p.evs:
+                if e_.kind == "assign" and " = " in e_.text:
+                    n_, v_ = e_.text.split(" = ", 1)
+                    if v_.strip() != n_.strip():
+                        vals[n_.strip()] = v_  # (a set / list display bound to a local stays a name in the terms: read its binding)
+            it, et = ("= " + vals.get(a_, a_) for a_ in sub_args[1:3])
         if not loops and functional is not None:
             # ... or the option expressions themselves, written in place (decided per path: the `is None` tests fork)
             if not isinstance(functional[0], ast.Name):
@@ -607,6 +617,51 @@ def run(ctx) -> None:
     ctx.check(okm, RO, "patterns._match_path", "; ".join(sorted(set(msgs))), mp.loc)
     ps = en.run(ma)
     oka = True
+
+    def direct_search(p) -> bool:
+        """match_any_paths written as its own search: one loop over `paths`, in order, that returns True exactly at the first element for
+        which _match_path(element, <include set>, <exclude set>, case_sensitive=case_sensitive) holds and that is non-empty, and False
+        after the loop; the sets follow the same defaults as in filter_paths"""
+        loops_ = [e for e in p.evs if e.kind == "loop"]
+        if len(loops_) != 1 or loops_[0].text != "paths":
+            return False
+        if not (p.outcome[0] == "return" and ast.unparse(p.outcome[1]) in ("False", "True")):
+            return False
+        mc = [e for b in loops_[0].extra["paths"] for e in b.evs if e.kind == "call" and e.extra.get("func") == "_match_path"]
+        if not mc:
+            return False
+        for b in loops_[0].extra["paths"]:
+            c_ = b.conds()
+            m_ = [v for a, v in c_.items() if a.startswith("_match_path(")]
+            nonempty = c_.get("$elem(paths)")
+            found = bool(m_) and m_[0] is True and nonempty is True
+            returns_true = b.outcome[0] == "return" and ast.unparse(b.outcome[1]) == "True"
+            if found != returns_true or (b.outcome[0] == "return" and not returns_true) or b.outcome[0] in ("break", "raise"):
+                return False
+        sub = mc[0].extra.get("args") or []
+        kw_ = mc[0].extra.get("kwargs") or {}
+        if len(sub) < 3 or sub[0] != "$elem(paths)" or kw_.get("case_sensitive", sub[3] if len(sub) > 3 else None) != "case_sensitive":
+            return False
+        vals: dict[str, str] = {}
+        for e_ in p.evs:
+            if e_.kind == "assign" and " = " in e_.text:
+                n_, v_ = e_.text.split(" = ", 1)
+                if v_.strip() != n_.strip():
+                    vals[n_.strip()] = v_
+        it_, et_ = (vals.get(a_, a_) for a_ in sub[1:3])
+        c0 = p.conds()
+        inc_, exc_ = c0.get("included_patterns is None"), c0.get("excluded_patterns is None")
+        if inc_ is None or exc_ is None:
+            return False
+        if (inc_ is True and "'*'" not in it_) or (inc_ is False and "included_patterns" not in it_):
+            return False
+        if (exc_ is True and it_ is not None and "set()" not in et_ and "set([])" not in et_) or (exc_ is False and "excluded_patterns" not in et_):
+            return False
+        # the loop's normal completion must end in `return False`
+        return ast.unparse(p.outcome[1]) == "False" or any(b.outcome[0] == "return" for b in loops_[0].extra["paths"])
+
+    if ps and all(direct_search(p) for p in ps if p.outcome[0] != "raise") and any(ast.unparse(p.outcome[1]) == "False" for p in ps if p.outcome[0] == "return"):
+        ps = []  # decided: the search form
     for p in ps:
         calls = [e for e in p.evs if e.kind == "call" and e.extra.get("func") == "filter_paths"]
         if len(calls) != 1:
